@@ -51,3 +51,49 @@ def e_identity(O):
             "expected entry and every identity check passed; any element error makes the row an error")
 def e_whole(O):
     dri.extract_whole(O, rep(), bound=2)
+
+
+@obligation("C13/answer-passed-unchanged", desc="handle_io: what the output-reading call returned is handed to "
+            "extract_output_values as it is - the very vector, nothing filtered, reordered or padded in between - so every "
+            "deviation of the answer (count, order, foreign signals) reaches the checks")
+def answer_passed_unchanged(O):
+    import z3
+    from ..sym import bv64
+    R = rep()
+    fn = O.find("::handle_io")
+    eng = O.engine()
+    eng.keep_events(*dri.KEEP)
+    paths = O.explore(eng, fn)
+    n = 0
+    for p in paths:
+        eng.focus(p)
+        if p.outcome != "return":
+            continue
+        dc = [e for e in p.calls(dri.DRV_ANY) if e.norm.endswith("write_input_and_read_output")]
+        if len(dc) != 1:
+            continue
+        rtag = eng.tag_of(dc[0].ret, None)
+        r, _ = O.solve(list(p.pc) + [rtag == bv64(0)], want_model=False)
+        if r != "sat":
+            continue
+        cond = [rtag == bv64(0)]
+        ex = p.calls(r"extract_output_values$")
+        if len(ex) != 1:
+            R.fail(O, p, "a successful read is followed by %d extractions" % len(ex), extra=cond)
+            continue
+        n += 1
+        answer = eng.field(eng.downcast(dc[0].ret, "Ok"), 0)
+        # the extraction receives the answer's own buffer (by value or by reference): compare pointee names
+        got = None
+        for a, tn in zip(ex[0].args, ex[0].tnames):
+            names = [tuple(tn)] + list(getattr(tn, "chain", [])) if tn else []
+            names.append((a.root, a.path))
+            if any(nm and nm[0] == answer.root for nm in names):
+                got = a
+        between = [e for e in p.trace[p.trace.index(dc[0]) + 1:p.trace.index(ex[0])] if e.kind == "call" and not e.norm.endswith("set_outputs")]
+        if got is None:
+            R.fail(O, p, "extract_output_values is not given the driver's own answer", extra=cond)
+        elif any(e.crate for e in between):
+            R.fail(O, p, "the answer passes through %s before it is checked" % between[0].norm.split("::")[-1], extra=cond)
+    if n == 0:
+        O.inconclusive("vacuous: no successful read followed by an extraction")
